@@ -1,4 +1,8 @@
-import TshVerif.Model.Lexer
+/-
+  C11 - Tokenisation is faithful: theorems about Model/Lexer.lean (the model of lexer.Tokenize).
+  Quantifier: all byte strings.  Helper lemmas are in Lemmas/Lexer.lean.
+-/
+import TshVerif.Lemmas.Lexer
 namespace Tsh.C11
 open Tsh Tsh.Lexer Tsh.LexTables
 
@@ -8,5 +12,292 @@ theorem regexes_as_modelled : regexes =
     ["^\\\\(x[0-9a-fA-F]{2}|u[0-9a-fA-F]{4}|U[0-9a-fA-F]{8}|[0-7]{3}|.)",
      "(?s)^\\/\\*(.*?)\\*\\/", "^\\/\\/(.*)", "^(true|false)\\b", "^-?\\d+(\\.\\d+)?",
      "[a-zA-Z_]", "[a-zA-Z0-9_]"] := by decide
+
+/-- the token types after which `-` before digits is an operator, as modelled -/
+theorem endsOperand_as_modelled :
+    endsOperand = [TT_IDENTIFIER, TT_BOOL_LITERAL, TT_NUMBER_LITERAL, TT_STRING_LITERAL, TT_NIL_LITERAL,
+                   TT_CLOSING_ROUND_BRACKET, TT_CLOSING_SQUARE_BRACKET] := by decide
+
+/-! ### the loop: totality, partition, positions -/
+
+theorem consumed_eq {s pre rest : Bytes} (h : s = pre ++ rest) : consumed s rest = pre := by
+  subst h; simp [consumed]
+
+/-- texts of a lexeme list, concatenated -/
+def texts (ls : List Lexeme) : Bytes := (ls.map (·.text)).flatten
+
+/-- every lexeme sits at the position reached by reading everything before it -/
+def WellPlaced : Nat × Nat → List Lexeme → Prop
+  | _, [] => True
+  | p, l :: ls => (l.row, l.col) = p ∧ WellPlaced (advance p l.text) ls
+
+theorem advance_append (p : Nat × Nat) (a b : Bytes) : advance (advance p a) b = advance p (a ++ b) := by
+  simp [advance, List.foldl_append]
+
+theorem wellPlaced_append (p : Nat × Nat) (a b : List Lexeme) :
+    WellPlaced p (a ++ b) ↔ WellPlaced p a ∧ WellPlaced (advance p (texts a)) b := by
+  induction a generalizing p with
+  | nil => simp [WellPlaced, texts, advance]
+  | cons l a ih =>
+    simp only [List.cons_append, WellPlaced, ih, texts, List.map_cons, List.flatten_cons]
+    rw [← advance_append]
+    constructor
+    · rintro ⟨h1, h2, h3⟩; exact ⟨⟨h1, h2⟩, h3⟩
+    · rintro ⟨⟨h1, h2⟩, h3⟩; exact ⟨h1, h2, h3⟩
+
+/-- Loop invariant: with enough fuel the loop never diverges, and a successful run returns the
+    accumulated lexemes followed by lexemes whose texts make up exactly the remaining input. -/
+theorem loop_spec : ∀ (fuel last : Nat) (pos : Nat × Nat) (s : Bytes) (acc : List Lexeme),
+    s.length ≤ fuel →
+    loop fuel last pos s acc ≠ .diverge ∧
+    (∀ ls p, loop fuel last pos s acc = .ok (ls, p) →
+      ∃ new, ls = acc.reverse ++ new ∧ texts new = s ∧ WellPlaced pos new ∧ p = advance pos s) := by
+  intro fuel
+  induction fuel with
+  | zero =>
+    intro last pos s acc hlen
+    have : s = [] := List.eq_nil_of_length_eq_zero (by omega)
+    subst this
+    constructor
+    · simp [loop]
+    · intro ls p h; simp [loop] at h; obtain ⟨rfl, rfl⟩ := h
+      exact ⟨[], by simp, by simp [texts], by simp [WellPlaced], by simp [advance]⟩
+  | succ n ih =>
+    intro last pos s acc hlen
+    cases s with
+    | nil =>
+      constructor
+      · simp [loop]
+      · intro ls p h; simp [loop] at h; obtain ⟨rfl, rfl⟩ := h
+        exact ⟨[], by simp, by simp [texts], by simp [WellPlaced], by simp [advance]⟩
+    | cons c t =>
+      simp only [loop]
+      cases hstep : step last (c :: t) with
+      | err => simp
+      | tok ty val rest =>
+        have hc := step_consumes hstep
+        obtain ⟨pre, hne, hs⟩ := hc
+        have hlt : rest.length ≤ n := by
+          have := (step_consumes hstep).length_lt
+          simp at hlen this ⊢; omega
+        simp only
+        have hcons : consumed (c :: t) rest = pre := consumed_eq hs
+        rw [hcons]
+        obtain ⟨hnd, hok⟩ := ih (if (ty == TT_SPACE || ty == TT_COMMENT) = true then last else ty) (advance pos pre) rest
+          ({ ty := ty, val := val, row := pos.1, col := pos.2, text := pre } :: acc) hlt
+        refine ⟨hnd, ?_⟩
+        intro ls p h
+        obtain ⟨new, rfl, htx, hwp, rfl⟩ := hok ls p h
+        refine ⟨{ ty := ty, val := val, row := pos.1, col := pos.2, text := pre } :: new, by simp, ?_, ?_, ?_⟩
+        · simp [texts] at htx ⊢; rw [htx, hs]
+        · exact ⟨rfl, hwp⟩
+        · rw [advance_append, hs]
+
+/-- **Totality of the lexer** (C13 uses it too): the fuel `length (normCRLF src)` always suffices. -/
+theorem lex_total (src : Bytes) : tokenizeTrace src ≠ .diverge ∧ tokenize src ≠ .diverge := by
+  have h := (loop_spec (normCRLF src).length 0 (1, 1) (normCRLF src) [] (Nat.le_refl _)).1
+  constructor
+  · simpa [tokenizeTrace] using h
+  · unfold tokenize
+    cases ht : tokenizeTrace src with
+    | ok a => simp
+    | err => simp
+    | diverge => simp [tokenizeTrace] at ht; exact absurd ht h
+
+/-- **Every source character is accounted for, once**: the texts of all lexemes (tokens, blanks,
+    comments), concatenated, are the CRLF-normalised source. -/
+theorem lex_partition (src : Bytes) (ls : List Lexeme) (p : Nat × Nat)
+    (h : tokenizeTrace src = .ok (ls, p)) : texts ls = normCRLF src := by
+  obtain ⟨new, rfl, htx, _, _⟩ := (loop_spec _ 0 (1, 1) (normCRLF src) [] (Nat.le_refl _)).2 ls p (by simpa [tokenizeTrace] using h)
+  simpa using htx
+
+/-- **Positions**: each lexeme's row and column are those of its first character, i.e. the position
+    reached by reading all the text before it (rows advance at every line feed, also inside comments
+    and string literals), and the EOF token sits at the end of the text. -/
+theorem lex_positions (src : Bytes) (ls : List Lexeme) (p : Nat × Nat)
+    (h : tokenizeTrace src = .ok (ls, p)) : WellPlaced (1, 1) ls ∧ p = advance (1, 1) (normCRLF src) := by
+  obtain ⟨new, rfl, _, hwp, hp⟩ := (loop_spec _ 0 (1, 1) (normCRLF src) [] (Nat.le_refl _)).2 ls p (by simpa [tokenizeTrace] using h)
+  exact ⟨by simpa using hwp, hp⟩
+
+/-- no lexeme is empty -/
+theorem step_nonempty {last : Nat} {s : Bytes} {ty : Nat} {val rest : Bytes}
+    (h : step last s = .tok ty val rest) : rest.length < s.length := (step_consumes h).length_lt
+
+/-- non-vacuity: the source ``/* a */ x := 1 /* b */ trueish⏎`r⏎s` y`` (two block comments on one line,
+    an identifier that starts like a literal, a multi-line raw string) lexes to x := 1 trueish NEWLINE
+    string y EOF: the code between the comments is kept, `trueish` is one identifier, and `y` is
+    reported on row 3 -/
+example : (match tokenize [47, 42, 32, 97, 32, 42, 47, 32, 120, 32, 58, 61, 32, 49, 32, 47, 42, 32, 98, 32, 42, 47, 32, 116, 114, 117, 101, 105, 115, 104, 10, 96, 114, 10, 115, 96, 32, 121] with
+    | .ok ts => ts.map (fun t => (t.ty, t.row, t.col))
+    | _ => []) = [(28, 1, 9), (14, 1, 11), (18, 1, 14), (28, 1, 24), (27, 1, 31), (19, 2, 1), (28, 3, 4), (53, 3, 5)] := by decide
+
+/-! ### longest match on the punctuation table, maximal identifiers, comments end at the first terminator -/
+
+/-- In the ordered punctuation table (re-read from the source) no entry is a prefix of a later
+    entry: the first entry that matches is therefore the longest one that matches. -/
+theorem punct_longest_first :
+    ∀ i j : Fin punctB.length, i.val < j.val → (punctB[i].1.isPrefixOf punctB[j].1) = false := by decide
+
+theorem stripPrefix_isSome_iff (p s : Bytes) : (stripPrefix? p s).isSome = p.isPrefixOf s := by
+  induction p generalizing s with
+  | nil => simp [stripPrefix?]
+  | cons a p ih =>
+    cases s with
+    | nil => simp [stripPrefix?]
+    | cons x xs =>
+      simp only [stripPrefix?, List.isPrefixOf]
+      by_cases hx : a = x
+      · subst hx; simp [ih]
+      · have : (a == x) = false := by simpa using hx
+        simp [this]
+
+/-- what `scanPunct` returns is an entry of the table that is a prefix of the input, and every entry
+    before it is not a prefix of the input -/
+theorem scanPunct_first (tbl : List (Bytes × Nat)) :
+    ∀ {s : Bytes} {ty : Nat} {v rest : Bytes}, scanPunct tbl s = some (ty, v, rest) →
+      ∃ i : Fin tbl.length, tbl[i] = (v, ty) ∧ v.isPrefixOf s = true ∧
+        ∀ j : Fin tbl.length, j.val < i.val → tbl[j].1.isPrefixOf s = false := by
+  induction tbl with
+  | nil => intro s ty v rest h; simp [scanPunct] at h
+  | cons e tbl ih =>
+    intro s ty v rest h
+    obtain ⟨k, t⟩ := e
+    simp only [scanPunct] at h
+    split at h
+    · rename_i r hr
+      simp at h; obtain ⟨rfl, rfl, rfl⟩ := h
+      refine ⟨⟨0, by simp⟩, by simp, ?_, ?_⟩
+      · rw [← stripPrefix_isSome_iff, hr]; rfl
+      · intro j hj; simp at hj
+    · rename_i hnone
+      obtain ⟨i, hi, hp, hb⟩ := ih h
+      refine ⟨⟨i.val + 1, by simp⟩, by simpa using hi, hp, ?_⟩
+      intro j hj
+      rcases j with ⟨jv, hjv⟩
+      cases jv with
+      | zero =>
+        simp
+        have := stripPrefix_isSome_iff k s
+        rw [hnone] at this
+        simpa using this.symm
+      | succ m =>
+        have := hb ⟨m, by simpa using hjv⟩ (by simpa using hj)
+        simpa using this
+
+theorem isPrefixOf_of_both {a b s : Bytes} (ha : a.isPrefixOf s = true) (hb : b.isPrefixOf s = true)
+    (hlen : a.length ≤ b.length) : a.isPrefixOf b = true := by
+  induction a generalizing b s with
+  | nil => simp
+  | cons x a ih =>
+    cases s with
+    | nil => simp at ha
+    | cons y s =>
+      cases b with
+      | nil => simp at hlen
+      | cons z b =>
+        simp only [List.isPrefixOf, Bool.and_eq_true, beq_iff_eq] at ha hb ⊢
+        exact ⟨ha.1.trans hb.1.symm, ih ha.2 hb.2 (by simpa using hlen)⟩
+
+/-- **Longest match for operators and separators**: the punctuation token the lexer takes is at
+    least as long as every other table entry that matches at this position. -/
+theorem punct_longest_match {s : Bytes} {ty : Nat} {v rest : Bytes} (h : scanPunct punctB s = some (ty, v, rest)) :
+    ∀ e ∈ punctB, e.1.isPrefixOf s = true → e.1.length ≤ v.length := by
+  obtain ⟨i, hi, hp, hb⟩ := scanPunct_first punctB h
+  intro e he hes
+  obtain ⟨j, hj⟩ := List.getElem_of_mem he
+  obtain ⟨hjlt, hje⟩ := hj
+  by_cases hlt : j < i.val
+  · have := hb ⟨j, hjlt⟩ hlt
+    simp [hje] at this
+    rw [this] at hes; exact absurd hes (by simp)
+  · by_cases heq : j = i.val
+    · subst heq
+      have : e = (v, ty) := by rw [← hje]; exact hi
+      simp [this]
+    · -- e comes later in the table; if it were longer, v would be a prefix of it
+      have hgt : i.val < j := by omega
+      rcases Nat.lt_or_ge v.length e.1.length with hl | hl
+      · have hlen : v.length ≤ e.1.length := by omega
+        have hpre := isPrefixOf_of_both hp hes hlen
+        have hord := punct_longest_first i ⟨j, hjlt⟩ hgt
+        have hvi : punctB[i].1 = v := by rw [hi]
+        have hej : punctB[(⟨j, hjlt⟩ : Fin punctB.length)].1 = e.1 := by simp [hje]
+        rw [hvi, hej, hpre] at hord
+        exact absurd hord (by simp)
+      · exact hl
+
+/-- does the byte string contain the block-comment terminator `*/`? -/
+def hasClose : Bytes → Bool
+  | [] => false
+  | b :: t => (b == 42 && t.head? == some 47) || hasClose t
+
+theorem hasClose_cons (b : UInt8) (t : Bytes) :
+    hasClose (b :: t) = ((b == 42 && t.head? == some 47) || hasClose t) := rfl
+
+theorem scanBlockBody_first : ∀ (s body rest : Bytes), scanBlockBody s = some (body, rest) →
+    s = body ++ 42 :: 47 :: rest ∧ hasClose body = false := by
+  intro s
+  induction s using scanBlockBody.induct with
+  | case1 rest => intro body r h; simp [scanBlockBody] at h; obtain ⟨rfl, rfl⟩ := h; simp [hasClose]
+  | case2 b rest hne ih =>
+    intro body r h
+    rw [scanBlockBody] at h
+    · cases hr : scanBlockBody rest with
+      | none => simp [hr] at h
+      | some pr =>
+        obtain ⟨bd, rr⟩ := pr
+        simp [hr] at h
+        obtain ⟨rfl, rfl⟩ := h
+        obtain ⟨h1, h2⟩ := ih bd rr hr
+        refine ⟨by simp [h1], ?_⟩
+        rw [hasClose_cons, h2]
+        simp
+        intro hb
+        cases bd with
+        | nil => simp
+        | cons x bd' =>
+          simp
+          intro hx
+          subst hb hx
+          exact hne (bd' ++ 42 :: 47 :: rr) rfl (by simp [h1])
+    · exact fun r hb hr => hne r hb hr
+  | case3 => intro body r h; simp [scanBlockBody] at h
+
+theorem scanBlockBody_isSome : ∀ (s : Bytes), hasClose s = true → ∃ bd rr, scanBlockBody s = some (bd, rr) := by
+  intro s
+  induction s using scanBlockBody.induct with
+  | case1 rest => intro _; exact ⟨[], rest, by simp [scanBlockBody]⟩
+  | case2 b rest hne ih =>
+    intro hclose
+    rw [hasClose_cons] at hclose
+    have : hasClose rest = true := by
+      cases hc : hasClose rest with
+      | true => rfl
+      | false =>
+        simp [hc] at hclose
+        obtain ⟨hb, hh⟩ := hclose
+        cases rest with
+        | nil => simp at hh
+        | cons x t => simp at hh; subst hb hh; exact (hne t rfl rfl).elim
+    obtain ⟨bd, rr, hh⟩ := ih this
+    refine ⟨b :: bd, rr, ?_⟩
+    rw [scanBlockBody]
+    · simp [hh]
+    · exact fun r hb hr => hne r hb hr
+  | case3 => intro h; simp [hasClose] at h
+
+/-- **Comments end at their first terminator**: at `/*` the lexer takes a COMMENT lexeme whose body
+    contains no `*/`; the text right after that first terminator is lexed as code. -/
+theorem block_comment_first_terminator {last : Nat} {body : Bytes} {ty : Nat} {val rest : Bytes}
+    (h : step last (47 :: 42 :: body) = .tok ty val rest) (hclose : hasClose body = true) :
+    ty = TT_COMMENT ∧ body = val ++ 42 :: 47 :: rest ∧ hasClose val = false := by
+  obtain ⟨bd, rr, hs⟩ := scanBlockBody_isSome body hclose
+  have : step last (47 :: 42 :: body) = .tok TT_COMMENT bd rr := by
+    simp [step, hs]
+  rw [this] at h
+  simp at h
+  obtain ⟨rfl, rfl, rfl⟩ := h
+  obtain ⟨h1, h2⟩ := scanBlockBody_first _ _ _ hs
+  exact ⟨rfl, h1, h2⟩
 
 end Tsh.C11
